@@ -1,5 +1,5 @@
 """C11 — nsync_wait_n reports a ready object, or a real timeout, and cleans up."""
-from props.shared import wait_groups
+from props.shared import wait_groups, cv_queue_groups
 
 ID = "C11"
 LEVEL = "proof"
@@ -14,10 +14,12 @@ EXPLANATION = (
     "once an object reports ready, and lasts until the earliest of the deadline and the objects' ready times; exactly the registered "
     "objects are deregistered, in order, with their own records; the result is the first object found no longer queued, and count only "
     "if the timed wait timed out at abs_deadline itself; the heap array is freed (cbmc pointer checks).")
-ASSUMPTIONS = ["the three shipped implementations of the interface meet it: counter (C10 groups), note (C08), cv (C04); see those properties"]
+ASSUMPTIONS = ["the three shipped implementations of the interface meet it: counter (C10 groups), note (C08 groups); the cv implementation (cv_ready_time, cv_enqueue, "
+               "cv_dequeue) is checked here by the BOUNDED groups cvq.waitable.N0..N2 on the real queue: register behind 0..2 other waiters, another thread's complete "
+               "signal / broadcast or nothing, poll, dequeue"]
 NOT_DECIDED = ["count > 6 (harness array bound)"]
 TRUSTED = []
 
 
 def groups(tier):
-    return wait_groups(tags=["C11", "C04"])
+    return wait_groups(tags=["C11", "C04"]) + [g for g in cv_queue_groups(tags=["C11", "C04"], tier=tier) if "waitable" in g.name]
